@@ -2,9 +2,13 @@
    Proved here: (1) an error in the request head is always INVALID, never "need more data", whatever
    byte of the read it falls on (the receivers only see `iter != end || fail()`); (2) failures are
    sticky in every sub-parser; (3) the request line, header line and chunk line parsers do not depend
-   on the partition into reads (see also Properties_C01).  The per-class verdicts and the limit
-   values are decided against the code by the correspondence + by-construction oracle. *)
-From Via Require Import M_Char M_Parse M_Receive P_Parse.
+   on the partition into reads (see also Properties_C01); (4) the verdicts as decision rules, for every state and
+   buffer: which violation gives which documented status (400 / 411 / 413 / 414 / 501, 405 for TRACE), a rejected
+   request is never handed over as a request, and the limits exactly - a method / target / Content-Length /
+   gathered chunk total AT the limit is taken, one beyond it is refused (P_C02.v).  Which byte strings count as
+   malformed beyond these rules (illegal bytes, whitespace, version syntax, CRLF discipline) is decided against the
+   code by the correspondence and the by-construction oracle over mutation classes. *)
+From Via Require Import M_Char M_Parse M_Receive P_Parse P_C02.
 Local Open Scope N_scope.
 
 Theorem C02_head_error_is_invalid : forall cfg v buf q1 rest,
@@ -34,6 +38,103 @@ Theorem C02_request_line_fragments : forall L a r b, rl_valid r = false ->
   end.
 Proof. intros L a r b. exact (rl_parse_app L a r b). Qed.
 
+(* ---- verdicts and limits (4) ---- *)
+(* a method one letter longer than MAX_METHOD_LENGTH: 501, on a fresh connection, whatever follows *)
+Theorem C02_method_too_long_is_501 : forall cfg m c rest,
+  forallb isupper m = true -> isupper c = true -> nlen m = max_method (c_lim cfg) ->
+  exists v1, receive cfg (rv_init cfg) (m ++ c :: rest) = (v1, rest, RX_INVALID) /\ rv_code v1 = code_NOT_IMPLEMENTED.
+Proof. exact method_too_long_is_501. Qed.
+
+(* a method of up to MAX_METHOD_LENGTH letters is collected and parsing goes on *)
+Theorem C02_method_at_limit_is_taken : forall L m r rest, rl_state r = R_METHOD -> forallb isupper m = true -> m <> [] ->
+  nlen (rl_method r) + nlen m <= max_method L ->
+  rl_parse L r (m ++ rest) =
+  rl_parse L (mk_rl (rl_method r ++ m) (rl_uri r) (rl_major r) (rl_minor r) R_METHOD (rl_ws r) (rl_valid r) false) rest.
+Proof. exact rl_parse_method. Qed.
+
+(* a target one byte longer than MAX_URI_LENGTH: 414 *)
+Theorem C02_target_too_long_is_414 : forall cfg m u c rest,
+  forallb isupper m = true -> m <> [] -> nlen m <= max_method (c_lim cfg) ->
+  forallb uri_char u = true -> uri_char c = true -> nlen u = max_uri (c_lim cfg) ->
+  exists v1, receive cfg (rv_init cfg) (m ++ 32 :: u ++ c :: rest) = (v1, rest, RX_INVALID) /\ rv_code v1 = code_REQUEST_URI_TOO_LONG.
+Proof. exact target_too_long_is_414. Qed.
+
+Theorem C02_target_at_limit_is_taken : forall L u r rest, rl_state r = R_URI -> forallb uri_char u = true -> u <> [] ->
+  nlen (rl_uri r) + nlen u <= max_uri L ->
+  rl_parse L r (u ++ rest) =
+  rl_parse L (mk_rl (rl_method r) (rl_uri r ++ u) (rl_major r) (rl_minor r) R_URI (rl_ws r) (rl_valid r) false) rest.
+Proof. exact rl_parse_uri. Qed.
+
+(* once the head is complete - receive hands over to receive_body (the two C02_head_complete theorems), whose verdicts are: *)
+Theorem C02_head_complete_now : forall cfg v buf q1 b1, rq_valid (rv_req v) = false -> rq_parse (c_lim cfg) (rv_req v) buf = (q1, b1, Done) ->
+  receive cfg v buf = receive_body cfg true (mk_rv q1 (rv_chunk v) (rv_body v) (rv_code v) (rv_continue_sent v) (rv_is_head v)) b1.
+Proof. exact receive_head_done. Qed.
+Theorem C02_head_complete_before : forall cfg v buf, rq_valid (rv_req v) = true -> receive cfg v buf = receive_body cfg false v buf.
+Proof. exact receive_head_before. Qed.
+
+Theorem C02_missing_host_is_400 : forall cfg rp v1 b1, rq_missing_host (rv_req v1) = true ->
+  receive_body cfg rp v1 b1 = (rv_set_code v1 code_BAD_REQUEST, b1, RX_INVALID).
+Proof. exact missing_host_is_400. Qed.
+
+Theorem C02_bad_content_length_is_400 : forall cfg rp v1 b1, unchunked v1 -> hd_content_length (rq_headers (rv_req v1)) = None ->
+  exists v, receive_body cfg rp v1 b1 = (v, b1, RX_INVALID) /\ rv_code v = code_BAD_REQUEST.
+Proof. exact bad_content_length_is_400. Qed.
+
+Theorem C02_content_length_over_limit_is_413 : forall cfg rp v1 b1 n, unchunked v1 -> rq_is_trace (rv_req v1) = false ->
+  hd_content_length (rq_headers (rv_req v1)) = Some n -> c_max_content cfg < n ->
+  exists v, receive_body cfg rp v1 b1 = (v, b1, RX_INVALID) /\ rv_code v = code_PAYLOAD_TOO_LARGE.
+Proof. exact content_length_over_limit_is_413. Qed.
+
+Theorem C02_content_length_at_limit_is_taken : forall cfg rp v1 b1, unchunked v1 -> rq_is_trace (rv_req v1) = false ->
+  hd_content_length (rq_headers (rv_req v1)) = Some (c_max_content cfg) -> 0 < c_max_content cfg ->
+  snd (receive_body cfg rp v1 b1) <> RX_INVALID.
+Proof. exact content_length_at_limit_is_taken. Qed.
+
+Theorem C02_body_without_length_is_411 : forall cfg rp v1 b1, unchunked v1 -> rq_is_trace (rv_req v1) = false ->
+  nonempty (hd_find (rq_headers (rv_req v1)) hf_LC_CONTENT_LENGTH) = false -> b1 <> [] ->
+  exists v, receive_body cfg rp v1 b1 = (v, b1, RX_INVALID) /\ rv_code v = code_LENGTH_REQUIRED.
+Proof. exact body_without_length_is_411. Qed.
+
+Theorem C02_trace_with_body_is_400 : forall cfg rp v1 b1, unchunked v1 -> rq_is_trace (rv_req v1) = true ->
+  hd_content_length (rq_headers (rv_req v1)) <> Some 0 ->
+  exists v, receive_body cfg rp v1 b1 = (v, b1, RX_INVALID) /\ rv_code v = code_BAD_REQUEST.
+Proof. exact trace_with_body_is_400. Qed.
+
+Theorem C02_trace_is_405_and_not_echoed : forall cfg rp v1, unchunked v1 -> rq_is_trace (rv_req v1) = true ->
+  hd_content_length (rq_headers (rv_req v1)) = Some 0 -> rv_body v1 = [] ->
+  exists v, receive_body cfg rp v1 [] = (v, [], RX_VALID) /\ rv_code v = code_METHOD_NOT_ALLOWED /\
+            rq_is_trace (rv_req v) = true /\ snd (dispatch_rx cfg v RX_VALID) = [ETrace code_METHOD_NOT_ALLOWED].
+Proof. exact trace_is_405. Qed.
+
+Theorem C02_bad_chunk_is_400 : forall cfg v1 b1 k1 b2 r2, chunked v1 ->
+  rc_parse (c_lim cfg) (chunk_in v1) b1 = (k1, b2, r2) -> r2 <> Done -> nonempty b2 || rc_failed k1 = true ->
+  exists v, receive_body cfg false v1 b1 = (v, b2, RX_INVALID) /\ rv_code v = code_BAD_REQUEST.
+Proof. exact bad_chunk_is_400. Qed.
+
+Theorem C02_chunks_over_limit_is_413 : forall cfg v1 b1 k1 b2, chunked v1 -> c_concat cfg = true ->
+  rc_parse (c_lim cfg) (chunk_in v1) b1 = (k1, b2, Done) -> rc_valid k1 = true -> rc_is_last k1 = false ->
+  c_max_content cfg < nlen (rv_body v1) + nlen (rc_data k1) ->
+  exists v, receive_body cfg false v1 b1 = (v, b2, RX_INVALID) /\ rv_code v = code_PAYLOAD_TOO_LARGE.
+Proof. exact chunks_over_limit_is_413. Qed.
+
+Theorem C02_chunks_at_limit_are_taken : forall cfg v1 b1 k1 b2, chunked v1 -> c_concat cfg = true ->
+  rc_parse (c_lim cfg) (chunk_in v1) b1 = (k1, b2, Done) -> rc_valid k1 = true -> rc_is_last k1 = false ->
+  nlen (rv_body v1) + nlen (rc_data k1) = c_max_content cfg ->
+  exists v, receive_body cfg false v1 b1 = (v, b2, RX_INCOMPLETE) /\ rv_body v = rv_body v1 ++ rc_data k1.
+Proof. exact chunks_at_limit_are_taken. Qed.
+
+Theorem C02_rejected_is_never_delivered : forall cfg v, dispatch_rx cfg v RX_INVALID = (rv_clear v, [EInvalid (rv_code v)]).
+Proof. exact invalid_is_never_delivered. Qed.
+
+(* non-vacuity: tiny limits, a method of exactly 4 letters is accepted and delivered, one of 5 is 501 *)
+Example C02_example_method_limit :
+  let cfg := mk_rcfg (mk_limits 16 4 100 65534 1024 8 65534 65534 false) 1048576 1048576 true true false in
+  let tail := [32;47;32;72;84;84;80;47;49;46;49;13;10;72;111;115;116;58;32;104;13;10;13;10] in
+  snd (receive cfg (rv_init cfg) ([80;79;83;84] ++ tail)) = RX_VALID /\
+  snd (receive cfg (rv_init cfg) ([80;79;83;84;83] ++ tail)) = RX_INVALID /\
+  rv_code (fst (fst (receive cfg (rv_init cfg) ([80;79;83;84;83] ++ tail)))) = code_NOT_IMPLEMENTED.
+Proof. vm_compute. repeat split. Qed.
+
 (* non-vacuity: "Ho@" at the end of one read, "st: a" in the next: the historical accepted input *)
 Example C02_example_error_on_last_byte :
   let cfg := mk_rcfg (mk_limits 8190 8 100 65534 1024 8 65534 65534 false) 1048576 1048576 true true false in
@@ -43,3 +144,10 @@ Proof. vm_compute. reflexivity. Qed.
 
 Print Assumptions C02_head_error_is_invalid.
 Print Assumptions C02_sticky_headers.
+Print Assumptions C02_method_too_long_is_501.
+Print Assumptions C02_target_too_long_is_414.
+Print Assumptions C02_content_length_over_limit_is_413.
+Print Assumptions C02_body_without_length_is_411.
+Print Assumptions C02_trace_is_405_and_not_echoed.
+Print Assumptions C02_bad_chunk_is_400.
+Print Assumptions C02_chunks_over_limit_is_413.
